@@ -119,6 +119,9 @@ func expectedLeaves(s mb.Msg) (leaves []leafExp, shape string) {
 		if t == "" {
 			t = "text/plain"
 		}
+		if i := strings.IndexByte(t, ';'); i > 0 {
+			t = strings.TrimSpace(t[:i]) // a content type given with parameters: the media type is what precedes them
+		}
 		leaves = append(leaves, leafExp{kind: "part", idx: i, mtype: t, content: p.Content, enc: enc, desc: p.Desc, charset: p.Charset})
 		ps = append(ps, t)
 	}
